@@ -194,7 +194,12 @@ func (a *Analysis) CheckNoGlobalState(r *Registry, rule string) {
 		}
 	}
 	n := 0
-	for _, rel := range libPkgs {
+	var rels []string
+	for rel := range a.W.Lib {
+		rels = append(rels, rel)
+	}
+	sort.Strings(rels)
+	for _, rel := range rels {
 		p := a.W.Lib[rel]
 		var names []string
 		for n := range p.Members {
